@@ -277,24 +277,28 @@ def frontend (cfg : Cfg) (env : Env) (D : Down) (align : Bool) (splitMs : Int) (
     some (mergeResponse cfg.minAll resps, c')
   | _ => none
 
-/-- one step of a history: the environment of the moment, whether the cache lost everything
-    before the request (eviction / restart), the request -/
+/-- one step of a history: the environment of the moment, which cache entries were lost before
+    the request (`lose k`: eviction of single keys, `fun _ => true`: restart / flush — the cache
+    is honest but lossy), the request -/
 structure Step where
   env : Env
-  flush : Bool
+  lose : Key → Bool
   req : Req
+
+/-- what is left of the cache after a loss -/
+def evict (lose : Key → Bool) (c : Cache) : Cache := c.filter fun kv => !lose kv.1
 
 /-- a whole history against one cache: the responses in order -/
 def historyE (cfg : Cfg) (D : Down) (align : Bool) (splitMs : Int) : Cache → List Step → List (Option Matrix)
   | _, [] => []
   | c, s :: rs =>
-    let c0 := if s.flush then [] else c
+    let c0 := evict s.lose c
     match frontend cfg s.env D align splitMs c0 s.req with
     | some (m, c') => some m :: historyE cfg D align splitMs c' rs
     | none => none :: historyE cfg D align splitMs c0 rs
 
 /-- a history of old, cacheable requests over a cache that loses nothing -/
 def history (cfg : Cfg) (D : Down) (align : Bool) (splitMs : Int) (c : Cache) (reqs : List Req) : List (Option Matrix) :=
-  historyE cfg D align splitMs c (reqs.map fun r => ⟨Env.far, false, r⟩)
+  historyE cfg D align splitMs c (reqs.map fun r => ⟨Env.far, fun _ => false, r⟩)
 
 end Thanos.ResultsCache
